@@ -63,6 +63,8 @@ DATA_READERS = {"get_times_patient", "get_values_patient"}
 # model methods whose bodies are walked (class McmcSaemCompatibleModel)
 MODEL_WALKED = {"compute_individual_trajectory", "compute_mean_traj", "compute_mode_traj", "compute_prior_trajectory"}
 MODEL_FILE, MODEL_CLASS = "models/mcmc_saem_compatible.py", "McmcSaemCompatibleModel"
+# subclasses fitted by mcmc_saem that override a walked method: every override is walked as well
+MODEL_OVERRIDES = [("models/joint.py", "JointModel")]
 # helpers of the model NOT walked (trusted): they may only receive values / clones, never the live State
 MODEL_TRUSTED = {"_check_individual_parameters_provided", "_get_tensorized_inputs", "_put_data_timepoints"}
 ALGO_WALKED = {"_get_fit_metrics", "_get_progress_str", "_is_burn_in"}
@@ -76,7 +78,7 @@ PURE_BUILTINS = {"len", "min", "max", "range", "enumerate", "list", "any", "all"
                  "tuple", "sum", "abs", "round", "hasattr", "type", "bool", "repr", "iter", "next", "reversed", "map", "filter"}
 LIVE_OK_BUILTINS = {"hasattr", "len", "isinstance", "type"}       # may receive a live object
 MODULES = {"np", "plt", "pd", "torch", "re", "time", "cm", "colormaps", "Path", "PdfPages", "Line2D", "LatentVariableInitType",
-           "LeaspyModelInputError", "serialize_tensor", "sys", "os", "math", "warnings"}
+           "LeaspyModelInputError", "serialize_tensor", "WeightedTensor", "sys", "os", "math", "warnings"}
 WRITE_OWN_CALLS = re.compile(r"^(print|plt\.\w+|.*\.(savefig|to_csv|write|close|set_title|set_xlabel|set_ylabel|plot|text|legend))$")
 MUTATORS = {"append", "extend", "add", "update", "pop", "clear", "remove", "insert", "sort", "reverse", "setdefault", "popitem", "discard",
             "fill", "put", "resize", "itemset", "setflags", "copy_", "set_", "index_put", "masked_fill", "scatter", "requires_grad_"}
@@ -117,6 +119,11 @@ class Scan:
         mtree, mcls = _class(MODEL_FILE, MODEL_CLASS)
         _imports_rng(mtree, MODEL_FILE)
         self.model = {f.name: f for f in mcls.body if isinstance(f, ast.FunctionDef)}
+        self.model_over = []
+        for path, cname in MODEL_OVERRIDES:
+            otree, ocls = _class(path, cname)
+            _imports_rng(otree, path)
+            self.model_over.append((cname, {f.name: f for f in ocls.body if isinstance(f, ast.FunctionDef)}))
         self.algo_str, self.algo_m = [], {}
         for path, cname in ALGO_STR_CLASSES:
             tree, cls = _class(path, cname)
@@ -468,8 +475,13 @@ class Scan:
                 for n, p in list(zip(names, ps[:len(c.args)])) + [(k.arg, p) for k, p in zip(c.keywords, ps[len(c.args):])]:
                     roles[n] = p
                 self.walk_fn(fn, roles, MODEL_CLASS)
+                for cname, meths in self.model_over:
+                    if m in meths:
+                        if [x.arg for x in meths[m].args.args] != [x.arg for x in fn.args.args]:
+                            self.bad(where, c, f"{cname}.{m} overrides with other parameters")
+                        self.walk_fn(meths[m], roles, cname)
                 return "derived"
-            if m in MODEL_TRUSTED and self.stack and self.stack[-1][0] == MODEL_CLASS:
+            if m in MODEL_TRUSTED and self.stack and self.stack[-1][0] in [MODEL_CLASS] + [c for _, c in MODEL_OVERRIDES]:
                 self.emit("OReadModel")
                 return "derived"
             self.bad(where, c, f"model method `{m}` is not in the whitelist of pure readers")
